@@ -525,8 +525,40 @@ func builtinMinMax(fn *ssa.Function, st *ssa.Store, fa *ssa.FieldAddr, kind, src
 }
 
 func minMaxGuard(fn *ssa.Function, st *ssa.Store, fa *ssa.FieldAddr, kind string) (string, bool) {
+	return minMaxGuardX(fn, st, fa, kind, true)
+}
+
+// minMaxSiblings: the other stores of the same value into the same accumulator field
+// (`if first { l.Min = v } else if v < l.Min { l.Min = v }` is one update written as two arms).
+func minMaxSiblings(fn *ssa.Function, st *ssa.Store, fa *ssa.FieldAddr) []*ssa.Store {
+	var out []*ssa.Store
+	eachInstr(fn, func(i ssa.Instruction) {
+		s, ok := i.(*ssa.Store)
+		if !ok || s == st {
+			return
+		}
+		if f2, isFA := s.Addr.(*ssa.FieldAddr); isFA && path(f2) == path(fa) && describeVal(s.Val) == describeVal(st.Val) {
+			out = append(out, s)
+		}
+	})
+	return out
+}
+
+// armUnder: the sibling store s runs exactly when cond has the value val (besides what both arms share):
+// its block's facts contain (cond, val).
+func armUnder(s *ssa.Store, cond ssa.Value, val bool) bool {
+	for _, f := range factsAt(s.Block()) {
+		if f.Cond == cond && f.Val == val {
+			return true
+		}
+	}
+	return false
+}
+
+func minMaxGuardX(fn *ssa.Function, st *ssa.Store, fa *ssa.FieldAddr, kind string, recurse bool) (string, bool) {
 	// the store's block is entered from If(s); collect the disjuncts that lead to it
 	blk := st.Block()
+	siblings := minMaxSiblings(fn, st, fa)
 	var disj []ssa.Value
 	var collect func(b *ssa.BasicBlock, depth int)
 	seenB := map[*ssa.BasicBlock]bool{}
@@ -583,7 +615,17 @@ func minMaxGuard(fn *ssa.Function, st *ssa.Store, fa *ssa.FieldAddr, kind string
 			}
 		}
 		if first != nil {
-			set := explore(fn.Blocks[0].Instrs[0], true, func(i ssa.Instruction) bool { return i == ssa.Instruction(first) })
+			set := explore(fn.Blocks[0].Instrs[0], true, func(i ssa.Instruction) bool {
+				if i == ssa.Instruction(first) {
+					return true
+				}
+				for _, s := range siblings {
+					if i == ssa.Instruction(s) {
+						return true // the other arm of a split update assigns the incoming value there
+					}
+				}
+				return false
+			})
 			if len(returnsIn(set)) > 0 {
 				return "the min/max comparison is skipped on some path through Add (an extra condition decides whether the accumulator may move): the result then depends on the order of addition", false
 			}
@@ -606,6 +648,21 @@ func minMaxGuard(fn *ssa.Function, st *ssa.Store, fa *ssa.FieldAddr, kind string
 					}
 				}
 				if all {
+					continue
+				}
+			}
+			// the other edge of this test is the first-sample arm of the same update
+			{
+				covered := false
+				for _, s := range siblings {
+					if armUnder(s, f.Cond, !f.Val) {
+						covered = true
+					}
+				}
+				if covered && !flowsFrom(f.Cond, func(v ssa.Value) bool {
+					ld, ok := isLoad(stripConv(v))
+					return ok && path(ld.X) == path(fa)
+				}) {
 					continue
 				}
 			}
@@ -705,6 +762,24 @@ func minMaxGuard(fn *ssa.Function, st *ssa.Store, fa *ssa.FieldAddr, kind string
 		}
 	}
 	if !haveCmp {
+		// the first-sample arm of a split update: the comparison lives in the sibling arm, which runs
+		// on the other edge of every test that leads here
+		if recurse {
+			for _, s := range siblings {
+				other := true
+				for _, d := range disj {
+					if !armUnder(s, d, false) {
+						other = false
+					}
+				}
+				if !other {
+					continue
+				}
+				if _, ok := minMaxGuardX(fn, s, s.Addr.(*ssa.FieldAddr), kind, false); ok {
+					return "first-sample arm of a split update; strict comparison in the other arm", true
+				}
+			}
+		}
 		return "no strict comparison between the accumulator and the incoming value", false
 	}
 	return "strict comparison", true
